@@ -180,8 +180,12 @@ PROPS["C20"] = dict(
          "with a selected-database field per connection; non-trivial = at least one SELECT and two active connections; distinct = "
          "distinct trace hash",
     state_measure="hash of the canonical final keyspace dumps",
-    components=REAL_E1,
+    components=dict(real=REAL_E1["real"] + ["server.Start accept loop, event loop and per-connection goroutines (sweep phase only, through the listener hook: "
+                                             "its TCP listener is replaced by one that yields simulated connections)"],
+                    stubbed=REAL_E1["stubbed"]),
     assumptions=[],
+    phases=[dict(engine="e1", test="TestWorker", share=0.85),
+            dict(engine="e1", race=True, test="TestRaceSweep", share=0.15)],
     quick=dict(wall=35), thorough=dict(wall=600),
 )
 
